@@ -62,7 +62,11 @@ func genSysSteer(r *rand.Rand, n int, tier string) []Case {
 		a := mk("addfact", "addfact", "addrule", "getfact", "search", "event", "size")
 		var bs []interface{}
 		for j := 0; j < 1+r.Intn(2); j++ {
-			bs = append(bs, mk("addfact", "addfact", "remfact", "addrule", "getfact", "search", "event", "size"))
+			b := mk("addfact", "addfact", "remfact", "addrule", "getfact", "search", "event", "size")
+			if r.Intn(3) == 0 {
+				b["touch"] = true
+			}
+			bs = append(bs, b)
 		}
 		cases = append(cases, Case{"locs": []interface{}{map[string]interface{}{"name": "L0", "kind": kind, "hooks": true, "persistent": true}},
 			"setup": []interface{}{}, "clients": []interface{}{[]interface{}{a}, bs},
